@@ -154,6 +154,9 @@ def check_property(pid, tier, seed, log=print):
                 all_obs.append(o)
             if o['status'] == 'failed':
                 failed.append((r, o))
+        if r.get('truncated') and r['status'] == 'failed' and not any(rr is r for rr, _o in failed):
+            # the job was cut short by a failure that belongs to another property: this property's obligations are undecided
+            hard_errors.append('%s: stopped at a failing obligation of another property; obligations of %s undecided' % (r['job'], pid))
         if r['status'] in ('extract-error', 'compile-error', 'instrument-error', 'vacuity-alarm', 'error'):
             hard_errors.append('%s: %s %s' % (r['job'], r['status'], '; '.join(r['notes'])[:1500]))
     violations = []
